@@ -336,8 +336,24 @@ def _discharge(ob, facts, goal, t0, timeout_ms, use_cvc5, both, small_terms, ris
     else:
         ob.verdict = "undecided"
         ob.note = "z3: %s" % s.reason_unknown()
-        # the Debian z3 4.8.12 binary first: it decides many lambda / array goals in milliseconds on which 5.1 times out
-        if z3_cli_check(s.to_smt2(), min(timeout_ms, 4000)) == "unsat":
+        # same solver with the older simplex arithmetic core (smt.arith.solver=2): goals that mention products / sqrt
+        # terms irrelevant to them are often decided at once this way while the default core wanders
+        for a_core, a_seed in ((2, 0), (1, 0), (2, 5)):
+            if ob.verdict != "undecided":
+                break
+            try:
+                s_a = _mk_solver(facts, ob.pc, goal, min(timeout_ms, 3000))
+                s_a.set("smt.arith.solver", a_core)
+                s_a.set("smt.random_seed", a_seed)
+                r_a = s_a.check()
+                if r_a == z3.unsat:
+                    ob.verdict, ob.backend = "proved", "z3(arith.solver=%d)" % a_core
+                elif r_a == z3.sat:
+                    ob.verdict, ob.backend, ob.model = "refuted", "z3(arith.solver=%d)" % a_core, s_a.model()
+            except z3.Z3Exception:
+                pass
+        # the Debian z3 4.8.12 binary: it decides many lambda / array goals in milliseconds on which 5.1 times out
+        if ob.verdict == "undecided" and z3_cli_check(s.to_smt2(), min(timeout_ms, 4000)) == "unsat":
             ob.verdict, ob.backend = "proved", "z3-4.8.12"
         # second attempt: arithmetic-purifying tactic (decides the nonlinear real goals quickly)
         try:
